@@ -546,7 +546,7 @@ PLANS["C12"]["rule"] += ("; family hist with verd=1: after EVERY step of every h
 PLANS["C13"]["rule"] += ("; family hist with binv=1: after every OPTIMAL solve inside solve ; any operation ; solve histories (also on start problems built rows-first) mpq_QSget_basis_order / QSget_binv_row / QSget_tableau_row are multiplied back against the edited model")
 
 # C01/C02 also hold after edits: the sandwich histories (solve ; any operation ; solve) judge the last solve's certificate
-_SW3P = hist("hist-sw3-prod", "prod", 3, weight=1, crash_props=["C17", "C01", "C02"], opts={"depth": 3, "reduced": 0, "sandwich": 1})
+_SW3P = hist("hist-sw3-prod", "prod", 3, weight=1, crash_props=["C17", "C01", "C02"], opts={"depth": 3, "reduced": 0, "sandwich": 1, "cont": 1})
 for _pid in ("C01", "C02"):
     PLANS[_pid]["quick"] = PLANS[_pid]["quick"] + [_SW3P]
     PLANS[_pid]["thorough"] = PLANS[_pid]["thorough"] + [_SW3P, hist("hist-d3r-prod", "prod", 3, reduced=1, weight=2, crash_props=["C17", "C01", "C02"])]
@@ -682,3 +682,9 @@ PLANS["C13"]["thorough"] = PLANS["C13"]["thorough"] + [fac("binv-CP", "prod", {"
 # C18 quick: the copy interleavings are cut to their first 12000 items (all of them run in C16 quick and in C18 thorough)
 PLANS["C18"]["quick"] = [dict(r, range=[0, 12000]) if r["id"] == "copy-s1-san" else r for r in PLANS["C18"]["quick"]]
 _dl("C18", quick=900)
+
+# C01: OPTIMAL claimed by the direct simplex started from every valid basis (singular ones, free columns non-basic) must be the truth
+PLANS["C01"]["quick"] = PLANS["C01"]["quick"] + [fam("warm-allbases-S0q1", "prodl1", "basis", {"fam": "S0q1", "files": 0, "verify": 0, "warm": 1}, weight=2, crash_props=["C17", "C01"])]
+PLANS["C01"]["thorough"] = PLANS["C01"]["thorough"] + [fam("warm-allbases-S0q1", "prodl1", "basis", {"fam": "S0q1", "files": 0, "verify": 0, "warm": 1}, weight=2, crash_props=["C17", "C01"]), fam("warm-allbases-Sbq", "prodl1", "basis", {"fam": "Sbq", "files": 0, "verify": 0, "warm": 1}, weight=2, crash_props=["C17", "C01"])]
+PLANS["C01"]["rule"] += "; family basis warm=1: an OPTIMAL reported by mpq_QSopt_primal / mpq_QSopt_dual started from any valid basis must be the truth; option cont=1 of the sandwich histories: a history goes on after a step that left the queries in disagreement with the model, and the certificate oracle then judges the answers against the problem the caller built"
+PLANS["C01"]["evidence"] = {"states": ["instances", "histories"], "transitions": ["executions", "api_transitions"], "nontrivial": ["instances_nontrivial", "histories"]}
